@@ -2,6 +2,9 @@
 # Applies every seeded change to /repo in turn, runs the property's quick check, records the outcome, undoes the change.
 # usage: ./tools_run_seeded.sh [ids...]
 cd /verif
+# the evidence files are rewritten by every run: keep the ones of the unchanged tree
+rm -rf /tmp/.evidence_keep && cp -r evidence /tmp/.evidence_keep
+trap 'cp /tmp/.evidence_keep/*.json /verif/evidence/ 2>/dev/null; rm -rf /tmp/.evidence_keep' EXIT
 for d in seeded/*/; do
   id=$(basename $d); prop=${id%%-*}
   if [ $# -gt 0 ] && [[ ! " $* " =~ " $prop " ]] && [[ ! " $* " =~ " $id " ]]; then continue; fi
